@@ -14,6 +14,11 @@ theorem ev_channel_Free_tie : Generated.ev_channel_Free = PinnedMpx.ev_channel_F
 theorem ev_channel_receive_tie : Generated.ev_channel_receive = PinnedMpx.ev_channel_receive := by decide
 theorem ev_channel_ReceiveAsync_tie : Generated.ev_channel_ReceiveAsync = PinnedMpx.ev_channel_ReceiveAsync := by decide
 theorem ev_channel_Receive_tie : Generated.ev_channel_Receive = PinnedMpx.ev_channel_Receive := by decide
+theorem ev_channel_ReceiveWait_tie : Generated.ev_channel_ReceiveWait = PinnedMpx.ev_channel_ReceiveWait := by decide
+theorem ev_conn_sendLoop_tie : Generated.ev_conn_sendLoop = PinnedMpx.ev_conn_sendLoop := by decide
+theorem ev_rpc_client_Receive_tie : Generated.ev_rpc_client_Receive = PinnedMpx.ev_rpc_client_Receive := by decide
+theorem ev_rpc_server_Receive_tie : Generated.ev_rpc_server_Receive = PinnedMpx.ev_rpc_server_Receive := by decide
+theorem ev_client_new_tie : Generated.ev_client_new = PinnedMpx.ev_client_new := by decide
 theorem ev_channel_Send_tie : Generated.ev_channel_Send = PinnedMpx.ev_channel_Send := by decide
 theorem ev_channel_SendAndClose_tie : Generated.ev_channel_SendAndClose = PinnedMpx.ev_channel_SendAndClose := by decide
 theorem ev_state_decrementSendWindow_tie : Generated.ev_state_decrementSendWindow = PinnedMpx.ev_state_decrementSendWindow := by decide
